@@ -1,21 +1,7 @@
-"""Per-property configuration of check.py (what to build, what to run, what to claim)."""
+"""Per-property configuration of check.py: one JSON file per property under checks/."""
+import glob, json, os
 
-CHECKS = {
-    "C08": {
-        "area": "c08",
-        "module": "ConfModel.Props.C08",
-        "headline": "ConfModel.Props.C08.trie_eq_glob / unmatched_complete / args_all_take_part",
-        "bins": ["connectconformance"],
-        "level": "proof",
-        "shrink": {"trie": ["pats", "names"], "accept": ["run", "skip", "names"], "cli": ["args"]},
-        "rule": "trie: every single pattern over {a,b,*,**} up to 4 (thorough 5) components x every such name; every pattern pair up to 3 "
-                "components x names up to 3 (4) and a random name subset; random sets of 1-6 patterns with empty/odd components; "
-                "accept: random run/skip splits; validate: the real run() validation block on a small library with random failing/flaky/run/skip "
-                "lists; cli: the real connectconformance binary, all shapes of <=3 arguments over {plain, @file(1), @file(2)}. "
-                "non-trivial = the glob verdict list contains both true and false (trie, accept), a rejection is required (validate), "
-                "more than one argument (cli); distinct = distinct (op, input).",
-        "assumptions": ["strings.Split / bytes.TrimSpace are modelled by String.splitOn / ASCII trim (generator emits ASCII only)",
-                        "test names reach the matcher unchanged (Request.TestName)"],
-        "trusted": ["modelled, not verified: Go maps as association lists; atomic counters as sequential (matching is single-threaded in run())"],
-    },
-}
+_here = os.path.dirname(os.path.abspath(__file__))
+CHECKS = {}
+for _p in sorted(glob.glob(os.path.join(_here, "checks", "C*.json"))):
+    CHECKS[os.path.basename(_p)[:-5]] = json.load(open(_p))
